@@ -18,7 +18,7 @@ func init() {
 func checkC18(c *Ctx) {
 	c.rule("C18.a", "literal sync decision never weaker than RFC 7888 (both sites, all capability subsets x sizes around 4096)", 32)
 	c.rule("C18.b", "'+' marker iff non-synchronising; payload writer only after CRLF flush and successful continuation wait", 3)
-	c.rule("C18.c", "encoder mode flags derive from the right capability queries", 3)
+	c.rule("C18.c", "encoder mode flags derive from the right capability queries; a fresh continuation request per synchronising literal", 4)
 	c.rule("C18.d", "CapSet.Has implication table for LITERAL-/LITERAL+/UTF8=ACCEPT", 24)
 	c.rule("C18.e", "validQuoted byte-class table", 514)
 	c.rule("C18.f", "every quoted-string emission is validated, constant, or a single delimiter rune", 5)
@@ -402,6 +402,38 @@ func ruleModeProvenance(c *Ctx, rule string) {
 		if !found[f] {
 			c.fail(rule, "beginCommand: Encoder."+f, begin.Pos(), "beginCommand no longer sets Encoder."+f)
 		}
+	}
+	// the callback that creates continuation requests registers a fresh one on every call
+	reg := p.Func("imapclient", "Client", "registerContReq")
+	seen := false
+	allInstrs(begin, func(i ssa.Instruction) {
+		st, ok := i.(*ssa.Store)
+		if !ok {
+			return
+		}
+		r, ok := fieldOf(st.Addr)
+		if !ok || !r.is("Encoder", "NewContinuationRequest") {
+			return
+		}
+		seen = true
+		mc, ok := st.Val.(*ssa.MakeClosure)
+		if !ok {
+			c.undecided(rule, "beginCommand: NewContinuationRequest callback", st.Pos(), "the callback is not a function literal")
+			return
+		}
+		cl := mc.Fn.(*ssa.Function)
+		fresh := true
+		for _, ret := range returnsOf(cl) {
+			call, isCall := unspill(ret.Results[0]).(*ssa.Call)
+			if !isCall || staticCallee(call) != reg || call.Block() != ret.Block() && !call.Block().Dominates(ret.Block()) {
+				fresh = false
+			}
+		}
+		c.check(fresh, rule, "beginCommand: NewContinuationRequest callback", st.Pos(), "every invocation returns the result of a new registerContReq call",
+			"the callback can hand out a continuation request that was already used: the second synchronising literal of a command does not wait for the server's '+' and its payload is sent unasked")
+	})
+	if !seen {
+		c.fail(rule, "beginCommand: NewContinuationRequest callback", begin.Pos(), "beginCommand no longer installs the continuation-request callback")
 	}
 }
 
